@@ -589,6 +589,54 @@ func rtConfinement(a *aggregator, v *rtView) {
 			})
 		}
 	}
+	// option constructors (functions returning func(*Parser) error): one option value may
+	// be applied to many instances, so the closure it returns must not carry storage made
+	// once by the constructor (a slice, map, pointer …) nor write its captured variables
+	var badOpt []string
+	nOpt := 0
+	for _, f := range v.all {
+		if f.Parent() != nil || f.Signature.Results().Len() != 1 {
+			continue
+		}
+		if _, isFn := f.Signature.Results().At(0).Type().Underlying().(*types.Signature); !isFn || f.Signature.Recv() != nil {
+			continue
+		}
+		instrsOf(f, func(in ssa.Instruction) {
+			mc, ok := in.(*ssa.MakeClosure)
+			if !ok {
+				return
+			}
+			nOpt++
+			fn := mc.Fn.(*ssa.Function)
+			for bi, b := range mc.Bindings {
+				t := b.Type()
+				if al, ok := b.(*ssa.Alloc); ok {
+					t = al.Type().(*types.Pointer).Elem() // a captured variable: judge what it holds
+				}
+				if pointerLike(t) {
+					if _, isSig := t.Underlying().(*types.Signature); isSig {
+						continue // another option or callback handed through
+					}
+					name := "a value"
+					if bi < len(fn.FreeVars) {
+						name = fn.FreeVars[bi].Name()
+					}
+					badOpt = append(badOpt, fmt.Sprintf("%s: the function returned by %s captures %s of type %s created when the option was built: every parser the option is applied to shares that storage", v.in.srcPos(mc.Pos()), f.Name(), name, t))
+				}
+			}
+			instrsOf(fn, func(in2 ssa.Instruction) {
+				if st, ok := in2.(*ssa.Store); ok {
+					if fv, ok := st.Addr.(*ssa.FreeVar); ok {
+						badOpt = append(badOpt, fmt.Sprintf("%s: the function returned by %s writes its captured variable %s, which all applications of the option share", v.in.srcPos(st.Pos()), f.Name(), fv.Name()))
+					}
+				}
+			})
+		})
+	}
+	if nOpt > 0 {
+		a.Decide(len(badOpt) == 0, "R-option-fresh", "generated file/option functions allocate per application", cfg, "",
+			fmt.Sprintf("%d option closure(s): none captures storage created by its constructor or writes a captured variable", nOpt), strings.Join(uniq(badOpt), "; "))
+	}
 	a.Decide(len(bad) == 0 && nG >= 1, "R-state-is-local", "generated file/package-level variables are read-only value tables", cfg, "",
 		fmt.Sprintf("%d package-level variable(s): value types without references, only element loads; all other parse state is declared inside Init or reached from the receiver", nG),
 		strings.Join(bad, "; "))
